@@ -318,6 +318,12 @@ def tokens_of(node) -> list:
 
 
 def _tok_kind(t: str) -> str:
+    import re
+    if t in PREC:
+        return 'op'
+    if t not in ('(', ')') and not t.endswith('(') and not re.fullmatch(
+            r"(?:\$|0x)[0-9a-fA-F]+|[0-9a-fA-F]+H|[%b][01]+|\d+|'.'|[._]?[A-Za-z_][A-Za-z0-9_]*", t):
+        return 'foreign'
     if t in PREC:
         return 'op'
     if t in ('(', ')'):
@@ -370,3 +376,76 @@ def well_formed(tokens: list) -> bool:
 
     ok = level(1)
     return ok and pos == len(tokens)
+
+
+# ------------------------------------------------------------------------------------------------
+# structured token sequences (used by the coverage-guided campaign): parse to an AST or fail
+
+class NotWellFormed(Exception):
+    pass
+
+
+def render_token(tok) -> str:
+    k = tok[0]
+    if k == 'num':
+        return render_num(tok[1], tok[2])
+    if k == 'lab':
+        return tok[1]
+    if k == 'func':
+        return tok[1] + '('
+    return tok[1] if k == 'op' else k
+
+
+def parse_structured(tokens):
+    """tokens: ('num', v, notation) | ('lab', name) | ('op', sym) | ('(',) | (')',) | ('func', 'BYTEn'|'LSB').
+    Recursive descent over the grammar of the property statement -> AST, raises NotWellFormed."""
+    pos = 0
+
+    def peek():
+        return tokens[pos] if pos < len(tokens) else None
+
+    def atom():
+        nonlocal pos
+        t = peek()
+        if t is None:
+            raise NotWellFormed()
+        if t[0] == 'num':
+            pos += 1
+            return ['num', t[1], t[2]]
+        if t[0] == 'lab':
+            pos += 1
+            return ['lab', t[1]]
+        if t[0] == 'op' and t[1] == '-':
+            pos += 1
+            return ['neg', atom()]
+        if t[0] == 'func':
+            pos += 1
+            inner = level(1)
+            if peek() is None or peek()[0] != ')':
+                raise NotWellFormed()
+            pos += 1
+            return ['lsb', inner] if t[1] == 'LSB' else ['byte', int(t[1][4]), inner]
+        if t[0] == '(':
+            pos += 1
+            inner = level(1)
+            if peek() is None or peek()[0] != ')':
+                raise NotWellFormed()
+            pos += 1
+            return ['par', inner]
+        raise NotWellFormed()
+
+    def level(p):
+        nonlocal pos
+        if p > 4:
+            return atom()
+        left = level(p + 1)
+        while peek() is not None and peek()[0] == 'op' and PREC[peek()[1]] == p:
+            op = peek()[1]
+            pos += 1
+            right = level(p + 1)
+            left = ['bin', op, left, right]
+        return left
+    ast = level(1)
+    if pos != len(tokens):
+        raise NotWellFormed()
+    return ast
